@@ -150,6 +150,16 @@ func c03Judge(c *Ctx, cs *c03Case, out rm.Outcome, panicked bool, elapsed, T tim
 	case exp.outcome == "success" && !cs.op.NoReply:
 		if got, has := markerOf(cs.op, out); has && got != exp.marker&markerMask(cs.op) {
 			c.Res.Violate(key+":foreign-content", fmt.Sprintf("%s over %s with datagrams [%s]: the result carries marker %d, the accepted datagram carried %d", cs.op.Name, cs.path, seqString(cs.seq), got, exp.marker&markerMask(cs.op)), w, caseNo)
+		} else {
+			// every field of the result is the decoding of the accepted datagram - nothing in it comes from anywhere else
+			for i, it := range cs.seq {
+				if it.marker == exp.marker && it.class == gen.Valid && i < len(cs.dgrams) && len(cs.dgrams[i]) == 64 {
+					if msg := cs.op.Expect(cs.serial, cs.args, cs.dgrams[i]).Judge(out); msg != "" {
+						c.Res.Violate(key+":foreign-content", fmt.Sprintf("%s over %s with datagrams [%s]: the result is not the decoding of the accepted datagram: %s", cs.op.Name, cs.path, seqString(cs.seq), msg), w, caseNo)
+					}
+					break
+				}
+			}
 		}
 	}
 	if layer == "loopback" {
